@@ -198,6 +198,10 @@ def pfield(rec, *path):
         if isinstance(cur, tuple):  # nested shadow store
             cur = dict((k[1:], v) for k, v in cur)
         cur = cur[p]
+    if isinstance(cur, bytes):  # char array: the observable value stops at the first NUL (as ctypes reports it)
+        i = cur.find(b"\x00")
+        if i >= 0:
+            cur = cur[:i]
     return cur
 
 
